@@ -124,15 +124,17 @@ func (d *sampleRec) EwmaUpdate(n int64, dur time.Duration) {
 
 func runProxyCase(c *ProxyCase, wrapDepth int) string {
 	p := mpb.New(mpb.WithOutput(io.Discard))
-	rec := &sampleRec{}
+	// two moving-average decorators, one on each side: every sample must reach both
+	rec, rec2 := &sampleRec{}, &sampleRec{}
 	rec.WC.Init()
+	rec2.WC.Init()
 	var opts []mpb.BarOption
 	if c.Cfg.Ewma {
 		var d decor.Decorator = rec
 		for k := 0; k < wrapDepth; k++ {
 			d = decor.OnComplete(d, "done")
 		}
-		opts = append(opts, mpb.AppendDecorators(d))
+		opts = append(opts, mpb.AppendDecorators(d), mpb.PrependDecorators(rec2))
 	}
 	bar := p.AddBar(c.Cfg.Total, opts...)
 	defer func() { bar.Abort(false); p.Wait() }()
@@ -238,10 +240,25 @@ func runProxyCase(c *ProxyCase, wrapDepth int) string {
 		return fmt.Sprintf("bar current %d, specification %d", cur, c.Cur)
 	}
 	if c.Cfg.Ewma {
-		rec.mu.Lock()
-		got := append([]int64(nil), rec.samples...)
-		durs := append([]time.Duration(nil), rec.durs...)
-		rec.mu.Unlock()
+		bar.Current() // one more round trip through the bar's goroutine: the update goroutines have been started
+		var got, got2 []int64
+		var durs []time.Duration
+		for try := 0; try < 200; try++ {
+			rec.mu.Lock()
+			got = append([]int64(nil), rec.samples...)
+			durs = append([]time.Duration(nil), rec.durs...)
+			rec.mu.Unlock()
+			rec2.mu.Lock()
+			got2 = append([]int64(nil), rec2.samples...)
+			rec2.mu.Unlock()
+			if len(got) == len(got2) {
+				break
+			}
+			time.Sleep(50 * time.Microsecond) // the updates run in goroutines of their own
+		}
+		if fmt.Sprint(got) != fmt.Sprint(got2) {
+			return fmt.Sprintf("the appended moving-average decorator received %v, the prepended one %v", got, got2)
+		}
 		want := c.Samples
 		// once the bar has completed its goroutine may or may not still accept a sample
 		if c.Done {
